@@ -108,7 +108,7 @@ func genAllowed(rng *rand.Rand, malformed bool) *allowedIn {
 
 func genCluster(rng *rand.Rand) *clusterIn {
 	in := &clusterIn{Controller: ourController, Stamp: rng.Intn(8) != 0, Malformed: rng.Intn(10) == 0}
-	in.Classes = []classIn{{"haproxy", ourController}, {"other", "example.com/other-controller"}}
+	in.Classes = []classIn{{Name: "haproxy", Controller: ourController}, {Name: "other", Controller: "example.com/other-controller"}}
 	if rng.Intn(25) == 0 {
 		in.Classes = in.Classes[1:] // our class is missing
 	}
@@ -173,8 +173,29 @@ func genCluster(rng *rand.Rand) *clusterIn {
 		gwNames = append(gwNames, g.Name)
 		nl := 1 + rng.Intn(3)
 		for j := 0; j < nl; j++ {
-			l := listenerIn{Name: fmt.Sprintf("l%d", j), Port: []int{80, 443, 8080, 6379, 5432}[rng.Intn(5)], Protocol: pickS(rng, []string{"HTTP", "HTTP", "TCP"}),
-				Hostname: pickP(rng, []string{nilS, nilS, nilS, nilS, "", "*", "gw.example", "*.wild.example"})}
+			l := listenerIn{Name: fmt.Sprintf("l%d", j), Port: []int{80, 443, 8080, 6379, 5432}[rng.Intn(5)],
+				Protocol: pickS(rng, []string{"HTTP", "HTTP", "HTTP", "HTTPS", "TLS", "TCP", "TCP", "UDP"}),
+				Hostname: pickP(rng, []string{nilS, nilS, nilS, nilS, "", "*", "gw.example", "a.example", "*.example", "*.wild.example"})}
+			if rng.Intn(25) == 0 {
+				l.Protocol = pickS(rng, []string{"", "example.com/custom"})
+			}
+			// TLS: terminate with a resolvable / dangling certificate, or passthrough
+			if l.Protocol == "HTTPS" || l.Protocol == "TLS" || rng.Intn(12) == 0 {
+				switch rng.Intn(5) {
+				case 0:
+					l.TLS = &tlsIn{Mode: ps("Passthrough"), Certs: []string{}}
+				case 1:
+					l.TLS = &tlsIn{Mode: ps("Terminate"), Certs: []string{"crt0"}}
+				case 2:
+					l.TLS = &tlsIn{Mode: nil, Certs: []string{pickS(rng, []string{"crt0", "missing"})}}
+				case 3:
+					l.TLS = &tlsIn{Mode: ps("Terminate"), Certs: []string{}}
+				default:
+					if rng.Intn(2) == 0 {
+						l.TLS = &tlsIn{Mode: ps("Passthrough"), Certs: []string{}}
+					}
+				}
+			}
 			if in.Malformed && rng.Intn(4) == 0 && j > 0 {
 				l.Name = "l0"
 			}
@@ -229,7 +250,7 @@ func genCluster(rng *rand.Rand) *clusterIn {
 		if !r.TCP {
 			nhn := rng.Intn(3)
 			for j := 0; j < nhn; j++ {
-				r.Hostnames = append(r.Hostnames, pickS(rng, []string{"a.example", "b.example", "c.example", "*.wild.example", "*"}))
+				r.Hostnames = append(r.Hostnames, pickS(rng, []string{"a.example", "a.example", "b.example", "gw.example", "x.wild.example", "*.wild.example", "*.example", "*"}))
 			}
 		}
 		nr := 1 + rng.Intn(2)
@@ -298,6 +319,37 @@ func genCluster(rng *rand.Rand) *clusterIn {
 			r.Rules = append(r.Rules, ru)
 		}
 		in.Routes = append(in.Routes, r)
+	}
+	// API versions
+	vs := []string{"v1", "v1beta1", "v1alpha2"}
+	if rng.Intn(4) != 0 {
+		in.Version = vs[rng.Intn(3)]
+	} else {
+		// mixed: two or three versions enabled, objects spread over them
+		in.Version = "v1"
+		in.Enabled = []string{"v1", "v1beta1", "v1alpha2"}
+		if rng.Intn(2) == 0 {
+			drop := rng.Intn(3)
+			in.Enabled = append(append([]string{}, in.Enabled[:drop]...), in.Enabled[drop+1:]...)
+		}
+		pickV := func() string { return in.Enabled[rng.Intn(len(in.Enabled))] }
+		var classes []classIn
+		for _, c := range in.Classes {
+			for _, v := range in.Enabled {
+				if rng.Intn(6) != 0 {
+					classes = append(classes, classIn{Name: c.Name, Controller: c.Controller, V: v})
+				}
+			}
+		}
+		in.Classes = classes
+		for i := range in.Gateways {
+			in.Gateways[i].V = pickV()
+		}
+		for i := range in.Routes {
+			if !in.Routes[i].TCP {
+				in.Routes[i].V = pickV()
+			}
+		}
 	}
 	return in
 }
